@@ -368,6 +368,8 @@ class Interp:
             return self.call_builtin(fn.name, args, kwargs)
         if isinstance(fn, TypeMarker):
             return self.call_builtin(fn.name, args, kwargs)
+        if isinstance(fn, SeqFn):
+            return fn.f(args[0])
         if isinstance(fn, ExcClass):
             return Opaque("exception", name=fn.name)
         if isinstance(fn, Obj):
@@ -925,11 +927,53 @@ class Interp:
             if inner is None:
                 return None
             return [(i, x) for i, x in enumerate(inner)]
+        if isinstance(it, ZipVal):
+            its = [self.iterate(a) for a in it.parts]
+            if any(i is None for i in its):
+                return None
+            return list(zip(*its))
         raise Unsupported("iteration over %r" % type(it).__name__)
+
+    def symbolic_seq(self, it):
+        """(length, element-at-index) for an iterable of symbolic length: an array, enumerate(..) or zip(..) of such"""
+        if isinstance(it, Arr):
+            return it.n, (lambda j, a=it: a.get(j))
+        if isinstance(it, EnumVal):
+            sq = self.symbolic_seq(it.inner)
+            if sq is None:
+                return None
+            n, f = sq
+            return n, (lambda j, f=f: (j, f(j)))
+        if isinstance(it, ZipVal):
+            sqs = [self.symbolic_seq(p) for p in it.parts]
+            if not sqs or any(q is None for q in sqs):
+                return None
+            n = sqs[0][0]
+            for q in sqs[1:]:
+                n = V.k_min(n, q[0])               # zip stops at the shortest
+            return n, (lambda j, sqs=sqs: tuple(q[1](j) for q in sqs))
+        return None
 
     def st_For(self, st, frame):
         it = self.eval(st.iter, frame)
         items = self.iterate(it)
+        if items is None and not isinstance(it, RangeVal):
+            sq = self.symbolic_seq(it)
+            if sq is not None:
+                # `for T in S` with S of symbolic length  ==  `for i in range(len(S)): T = S[i]; ...`
+                self._desugar = getattr(self, "_desugar", 0) + 1
+                iname, sname, nname = "__i%d" % self._desugar, "__s%d" % self._desugar, "__n%d" % self._desugar
+                frame.locals[sname] = SeqFn(sq[1])
+                frame.locals[nname] = sq[0]
+                bind = ast.Assign(targets=[st.target], value=ast.Call(func=ast.Name(id=sname, ctx=ast.Load()),
+                                                                     args=[ast.Name(id=iname, ctx=ast.Load())], keywords=[]))
+                loop = ast.For(target=ast.Name(id=iname, ctx=ast.Store()),
+                               iter=ast.Call(func=ast.Name(id="range", ctx=ast.Load()), args=[ast.Name(id=nname, ctx=ast.Load())], keywords=[]),
+                               body=[bind] + list(st.body), orelse=list(st.orelse))
+                ast.copy_location(loop, st)
+                ast.copy_location(bind, st)
+                ast.fix_missing_locations(loop)
+                return self.st_For(loop, frame)
         if items is None:
             from . import loops
             return loops.summarise_for(self, st, it, frame)
@@ -1022,6 +1066,26 @@ class Interp:
                 if all(self.truth(self.eval(c, sub)) for c in ifs):
                     out.append(self.eval(elt, sub))
             return Arr.from_items(out, is_list=is_list)
+        if not ifs and not isinstance(it, RangeVal):
+            sq = self.symbolic_seq(it)
+            if sq is not None and hasattr(self.dom, "fresh_int"):
+                # [elt for T in S], S of symbolic length: the element at a generic index j, T bound to S[j]
+                from .z3dom import subst
+                n, elem = sq
+                j = self.dom.fresh_int("cj")
+                mark = len(self.pc)
+                self.assume(V.b_and(V.s_cmp(">=", j, 0), V.s_cmp("<", j, n)))
+                ndec = len(self.decisions)
+                self.assign(target, elem(j), sub)
+                val = self.eval(elt, sub)
+                if len(self.decisions) != ndec:
+                    self.check_uniform(ndec, mark)
+                del self.pc[mark:]
+                if isinstance(val, (Arr, Arr2)) or not V.is_num(val):
+                    raise Unsupported("comprehension element is not a scalar")
+                r = Arr.build(n, lambda i: subst(val, [(j, i)]), V.dtype_of_scalar(val))
+                r.is_list = is_list
+                return r
         if ifs or not isinstance(it, RangeVal) or not isinstance(target, ast.Name):
             raise Unsupported("comprehension over symbolic iterable with filter")
         if it.step not in (1, -1):
@@ -1346,6 +1410,30 @@ class Interp:
             if isinstance(b, (Arr, Arr2)):
                 return b.__rtruediv__(a)
             return V.s_div(a, b)
+        if isinstance(op, ast.MatMult):
+            # a @ b on arrays is numpy.dot(a, b) for the 1-D / 2-D cases the library contract covers (scalars: numpy raises)
+            if isinstance(a, (Arr, Arr2)) and isinstance(b, (Arr, Arr2)):
+                return self.call_lib("numpy.dot", [a, b], {})
+            if V.is_num(a) or V.is_num(b):
+                raise RaiseSig("ValueError", "matmul: input operand does not have enough dimensions")
+            raise Unsupported("@ on %s and %s" % (type(a).__name__, type(b).__name__))
+        if isinstance(op, (ast.LShift, ast.RShift)):
+            # integer shifts: a << k = a * 2**k, a >> k = a // 2**k  (k >= 0; Python raises ValueError for a negative count)
+            if isinstance(a, (Arr, Arr2)) or isinstance(b, (Arr, Arr2)):
+                raise Unsupported("shift of arrays")
+            if isinstance(a, bool):
+                a = int(a)
+            if isinstance(a, int) and isinstance(b, int):
+                if b < 0:
+                    raise RaiseSig("ValueError", "negative shift count")
+                return a << b if isinstance(op, ast.LShift) else a >> b
+            if isinstance(a, Fraction) or isinstance(b, Fraction) or isinstance(a, Cx) or isinstance(b, Cx):
+                raise RaiseSig("TypeError", "unsupported operand type(s) for shift")
+            if not (V.s_is_int(a) and V.s_is_int(b)):
+                raise Unsupported("shift of non-integer symbolic values")
+            self.dom.require(V.s_cmp(">=", b, 0), "negative shift count", "ValueError")
+            two_k = V.s_pow(2, b)
+            return a * two_k if isinstance(op, ast.LShift) else self.binop(ast.FloorDiv(), a, two_k)
         if isinstance(op, ast.FloorDiv):
             if isinstance(a, (Arr, Arr2)) or isinstance(b, (Arr, Arr2)):
                 raise Unsupported("array floor division")
@@ -1621,7 +1709,7 @@ class Interp:
         if name == "zip":
             its = [self.iterate(a) for a in args]
             if any(i is None for i in its):
-                raise Unsupported("zip over symbolic iterables")
+                return ZipVal(list(args))          # stays symbolic: consumed by a for loop / comprehension (symbolic_seq)
             return list(zip(*its))
         if name == "sum":
             x = args[0]
@@ -1857,6 +1945,20 @@ class ReversedVal:
 class EnumVal:
     def __init__(self, inner):
         self.inner = inner
+
+
+class ZipVal:
+    """zip(..) over iterables of symbolic length"""
+
+    def __init__(self, parts):
+        self.parts = parts
+
+
+class SeqFn:
+    """element function of a desugared `for T in S` loop: called as __s(i) by the rewritten loop body"""
+
+    def __init__(self, f):
+        self.f = f
 
 
 class DirResult:
